@@ -759,7 +759,7 @@ class Interp:
             if d.lo == d.hi:
                 self.apply_cond(S, sv, d.lo)
 
-    def apply_cond(self, S, sv, val):
+    def apply_cond(self, S, sv, val, _depth=0):
         for node in (sv,):
             facts = self.cond.get((node, val))
             if facts:
@@ -768,6 +768,10 @@ class Interp:
                         S.add_le(f[1], f[2], f[3])
                     elif f[0] == "dom":
                         S.set_dom(f[1], f[2])
+                        # a fact that decides another value carrying conditional facts passes them on (eq(..) true => first() is Some
+                        # => len >= 1)
+                        if not S.dead and f[2].lo == f[2].hi and f[1] != sv and (f[1], f[2].lo) in self.cond and _depth < 3:
+                            self.apply_cond(S, f[1], f[2].lo, _depth + 1)
                     if S.dead:
                         return
         # a refinement of cmp/not nodes may decide discriminants that carry conditional facts
